@@ -450,9 +450,12 @@ func (g *gen) stepRead() {
 	case x < 30:
 		ctr, variant = last+g.pickI(1500, 2000), "huge"
 	}
-	signer, sigOK := client, true
-	if g.chance(8) {
+	signer, sigOK, pub := client, true, client.Pub
+	switch x := g.r.Intn(100); {
+	case x < 7: // signed by somebody else, the client's key in the marker
 		signer, sigOK, variant = g.clients[3], false, variant+"-wrongsigner"
+	case x < 12: // somebody else's key in the marker under the client's id, consistently signed with it
+		signer, sigOK, pub, variant = g.clients[3], false, g.clients[3].Pub, variant+"-wrongkey"
 	}
 	ts := int64(g.w.Now) - g.pickI(0, 0, 3, 500)
 	if rp := readPoolOf(g.prev, client.ID); rp == 0 && g.chance(60) {
@@ -466,7 +469,7 @@ func (g *gen) stepRead() {
 	if g.chance(10) {
 		from = client
 	}
-	in := g.readMarkerInput(a, b, client, signer, ctr, ts)
+	in := g.readMarkerInput(a, b, client, signer, pub, ctr, ts)
 	g.do(from, "read_redeem", in, 0, opInfo{variant: variant, target: a.id, tblob: b.key.ID,
 		rmClient: client.ID, rmBlobber: b.key.ID, rmAlloc: a.id, rmCtr: ctr, rmSig: sigOK})
 }
